@@ -1,5 +1,6 @@
 // C08 driver: compat/libc/string mem*/str* (symbols renamed igv_*), arguments are offsets into one heap arena.
 #include "common/vlog.h"
+#include <sys/mman.h>
 #include <strings.h>
 using namespace vlog;
 extern "C" {
@@ -17,6 +18,23 @@ static int sgn(long x) { return x < 0 ? -1 : x > 0 ? 1 : 0; }
 int main(int argc, char **argv) {
     return run(argc, argv, [&](const std::vector<std::string> &t) {
         if (t[0] == "R") { Ev e("Reset"); e.end(); return; }
+        if (t[0] == "MemBig") {   // MemBig fn span dst src n c marks probes : memcpy / memmove / memset on an object of `span` bytes (more than 4 GiB) of lazily
+            // committed, zero-filled memory; marks = pos:byte,... are written first, probes = pos,... are read back afterwards.  Positions are
+            // logged as <<high, low 16 bits>> (TLC integers have 32 bits).
+            auto pair = [](unsigned long long v) { return "[" + std::to_string((long long)(v >> 16)) + "," + std::to_string((long long)(v & 0xffff)) + "]"; };
+            const std::string &fn = t[1]; unsigned long long span = strtoull(t[2].c_str(), 0, 10), d = strtoull(t[3].c_str(), 0, 10), sdx = strtoull(t[4].c_str(), 0, 10), n = strtoull(t[5].c_str(), 0, 10); int c = num(t[6]);
+            unsigned char *base = (unsigned char *)mmap(nullptr, span + 8192, PROT_READ | PROT_WRITE, MAP_PRIVATE | MAP_ANONYMOUS | MAP_NORESERVE, -1, 0);
+            if (base == (unsigned char *)MAP_FAILED) { perror("mmap"); exit(3); }
+            mprotect(base + ((span + 4095) / 4096) * 4096, 4096, PROT_NONE);          // the page behind the object is not accessible
+            std::string marks = "["; { size_t i = 0; const std::string &ms = t[7]; bool first = true; while (ms != "-" && i < ms.size()) { size_t j = ms.find(',', i); if (j == std::string::npos) j = ms.size(); std::string it = ms.substr(i, j - i); size_t q = it.find(':');
+                unsigned long long pos = strtoull(it.substr(0, q).c_str(), 0, 10); int b = atoi(it.substr(q + 1).c_str()); base[pos] = (unsigned char)b; if (!first) marks += ","; first = false; marks += "[" + std::to_string((long long)(pos >> 16)) + "," + std::to_string((long long)(pos & 0xffff)) + "," + std::to_string(b) + "]"; i = j + 1; } } marks += "]";
+            unsigned keep = g_op_timeout; if (keep) { g_op_timeout = 900; watchdog(true); g_op_timeout = keep; }
+            void *r = fn == "memcpy" ? igv_memcpy(base + d, base + sdx, n) : fn == "memmove" ? igv_memmove(base + d, base + sdx, n) : igv_memset(base + d, c, n);
+            std::string probes = "["; { size_t i = 0; const std::string &ps = t[8]; bool first = true; while (ps != "-" && i < ps.size()) { size_t j = ps.find(',', i); if (j == std::string::npos) j = ps.size(); unsigned long long pos = strtoull(ps.substr(i, j - i).c_str(), 0, 10);
+                if (!first) probes += ","; first = false; probes += "[" + std::to_string((long long)(pos >> 16)) + "," + std::to_string((long long)(pos & 0xffff)) + "," + std::to_string((int)base[pos]) + "]"; i = j + 1; } } probes += "]";
+            unsigned long long ro = (unsigned char *)r - base;
+            Ev e("MemBig"); e.str("fn", fn.c_str()).str("args", (t[2] + " " + t[3] + " " + t[4] + " " + t[5] + " " + t[6] + " " + t[7] + " " + t[8]).c_str()).raw("d", pair(d)).raw("s", pair(sdx)).raw("n", pair(n)).i("c", c).raw("marks", marks).raw("probes", probes).raw("ret", pair(ro)); e.end();
+            munmap(base, span + 8192); return; }
         // Str fn mem a b n pad
         const std::string &fn = t[1]; auto m = blist(t[2]); long a = num(t[3]), b = num(t[4]); size_t n = t[5][0] == '-' ? (size_t)num(t[5]) : (size_t)strtoull(t[5].c_str(), 0, 10); size_t pad = num(t[6]);
         // a count that does not fit TLC's integers (2^31 and more, or "negative" = near SIZE_MAX) is logged as -1 ("more than any object") and exactly as text
